@@ -161,7 +161,7 @@ func (r *mqRun) apply(op Op) string {
 		r.ref = nil
 		return r.check()
 	case "addRun":
-		for i := 0; i <= a%12; i++ {
+		for i, n := 0, runLen(a); i <= n; i++ {
 			r.sub = i
 			if msg := r.doAdd(); msg != "" {
 				return msg
